@@ -8,13 +8,25 @@ KEEP_FIRST = 0
 
 TRUSTED = [
     "Lean 4 kernel; axioms of every theorem audited (propext, Classical.choice, Quot.sound at most)",
-    "hand-written model lean/CppUModel/Model/CommandLine.lean (parse loop, handlers, runner), tied to "
-    "src/CppUTest/CommandLineArguments.cpp and CommandLineTestRunner.cpp by the h_c12 correspondence of this run",
-    "translate/extract_cmdline.py: the dispatch chain of parse() and the eight add...Filter functions are regenerated "
-    "into Gen/ParseDispatch.lean and proved equal to the model's tables; the other loop-free helpers are pinned by "
-    "their normalised source text",
-    "SimpleString operations (==, startsWith, subString, subStringFromTill, split, AtoI, AtoU) compute the textbook "
-    "functions of Spec/Text.lean / Spec/CommandLine.lean: that link is property C13; here it is exercised by the correspondence",
+    "translate/extract_cmdline_fns.py: token-level statement translator that regenerates, on every run, Lean definitions for "
+    "the constructor, getParameterField, setRepeatCount, setShuffle, the eight add...Filter functions, addGroupDotNameFilter, "
+    "addTestToRunBasedOnVerboseOutput, setOutputType, setPackageName, the whole body of the for loop of parse(), the getter "
+    "table, the output selection of CommandLineTestRunner::parseArguments, initializeTestRun and runAllTests "
+    "(Gen/ParseHandlers.lean); every one of them is PROVED equal to the hand-written model for all inputs "
+    "(source_parse_eq_model, source_loop_body_eq_step, source_*_eq), so a translator bug that changes the meaning shows up as a "
+    "broken proof or as a model/implementation disagreement. What the translator assumes: `(ac, av, i)` are read as the rest "
+    "of the argument list and an offset; `av[i] + n` is `drop n`; TestFilter construction / strictMatching / invertMatching / "
+    "add are a record, two flags and cons (their bodies are pinned); the `while (loopCount++ < repeatCount)` idiom is a map over "
+    "the repetitions",
+    "translate/extract_cmdline.py: dispatch table, filter-function table, help()/usage() option lists, plugin facts; pinned by "
+    "normalised text only: TestPlugin::parseAllArguments, MemoryReporterPlugin::parseArguments, RunAllTests(ac, av), "
+    "runAllTestsMain, the TestFilter helpers",
+    "hand-written model lean/CppUModel/Model/CommandLine.lean for what is not regenerated (plugin chain, RunAllTests glue, which "
+    "test bodies run, report file names, TeamCity messages, memory formatter choice), tied by the h_c12 correspondence of this run",
+    "SimpleString operations (==, startsWith, subString, subStringFromTill, at, split, AtoI, AtoU, contains, replace) compute the "
+    "textbook functions of Spec/Text.lean / Spec/CommandLine.lean: that link is property C13 (and Props/C12x.lean for the -t and "
+    "TEST( paths); here it is exercised by the correspondence",
+    "JUnit file naming (JUnit.createFileName) is C16's model with C16's regenerated constants",
     "the statement of `render`/`meaning` (Spec/CommandLine.lean, written from help()/usage() and DESIGN appendix B)",
     "memory safety of the compiled parser is OBSERVED under ASan/UBSan on the generated vectors, not proved; at model level "
     "stored_strings_from_args shows every stored string is a contiguous part of an argument",
@@ -22,15 +34,20 @@ TRUSTED = [
 ASSUMPTIONS = [
     "argv strings are NUL-terminated byte strings (no embedded NUL), argc >= 1",
     "the plugin chain's answer for a -p<...> argument is a function of that argument; the clock is an input",
-    "int is 32 bits with two's complement wrap-around in AtoI (what gcc emits; C leaves it undefined), size_t 64 bits",
+    "int is 32 bits with two's complement wrap-around in AtoI (what gcc emits; C leaves it undefined), size_t 64 bits; "
+    "size() - 1 on an empty token is never used as a length of a non-empty string (Nat subtraction in the translation)",
     "documented numeric ranges: repeat count 1..2^31-1, shuffle seed 1..2^32-1",
     "a plugin's parseArguments answer is a function of av[index]; plugin names in the registry differ from the two RunAllTests installs",
+    "no probe group name ends with '_' (the harness recognises the JUnit file of an empty group block by its name)",
 ]
 RULE = ("clock sweep: bare -s with the clock at 0, 2^32, 2^33, 1, 2^32-1, ... in every run; rendered stream: lists of 0-9 documented options (all 11 option families, attached and separated forms, values "
         "from a vocabulary overlapping the 12-test probe registry plus random identifiers, repeated and shuffled); "
         "malformed stream: raw arguments from arbitrary bytes, lone prefixes, every option literal with random tails, "
         "numbers with signs/blanks/overflow, empty strings, options as last argument, 1-6 kB arguments, mixed with valid "
-        "options; non-trivial = at least two arguments or a rejection; distinct = distinct argument vectors")
+        "options; combo stream: output kind x verbosity x package x shuffle x repeat x list mode x reverse x one filter as documented "
+        "options (what the created outputs show is judged), sometimes with a memory-reporter argument; memrep sweep: 16 spellings of "
+        "-pmemoryreport= (twice, embedded, behind another plugin's prefix); resetting sweep: every value option given twice, the second "
+        "time in each degenerate form; non-trivial = at least two arguments or a rejection; distinct = distinct argument vectors")
 
 
 def hx(b):
@@ -250,6 +267,85 @@ def gen_clock_sweep(rng):
     return out
 
 
+MEMREP = ["-pmemoryreport=normal", "-pmemoryreport=code", "-pmemoryreport=", "-pmemoryreport=zz", "-pmemoryreport=Normal",
+          "-pmemoryreport=normal ", "-pmemoryreport=codecode", "-pmemoryreport=-pmemoryreport=code", "-px-pmemoryreport=normal",
+          "-pmemoryreport=nor-pmemoryreport=mal", "-p-pmemoryreport=", "-pmemoryreport", "-pmemoryreport=code-pmemoryreport=",
+          "-pacc-pmemoryreport=code", "-pb-pmemoryreport=normal", "-pc-pmemoryreport=normal"]
+
+
+def gen_combo(rng):
+    """two to five features that meet in the runner: output kind x verbosity x package x shuffle x repeat x list mode x
+    reverse x colour, as documented options (so the oracle judges what the created outputs show)"""
+    ops = []
+    if rng.random() < 0.5:
+        ops.append("time %d" % rng.choice(CLOCKS + [77, 123456789012]))
+    opts = []
+    o = rng.choice(OUTS + ["junit", "junit", "teamcity", None])
+    if o:
+        f = rng.choice("AS")
+        opts.append(([f, "output", o], spell(f, "-o", o)))
+    if rng.random() < 0.6:
+        f = rng.choice("AS")
+        v = ident(rng, ["pkg", "my_package", "P1"])
+        opts.append(([f, "package", hx(v)], spell(f, "-k", v)))
+    if rng.random() < 0.5:
+        fl = rng.choice(["v", "vv", "v", "c"])
+        opts.append((["A", "flag", fl], ["-" + fl]))
+    if rng.random() < 0.6:
+        if rng.random() < 0.4:
+            opts.append((["A", "shuffle", "-"], ["-s"]))
+        else:
+            f = rng.choice("AS")
+            n = number(rng, 2 ** 32)
+            opts.append(([f, "shuffle", n], spell(f, "-s", n)))
+    if rng.random() < 0.6:
+        if rng.random() < 0.3:
+            opts.append((["A", "repeat", "-"], ["-r"]))
+        else:
+            f = rng.choice("AS")
+            n = rng.choice(["1", "2", "3", "3", "02", "4"])
+            opts.append(([f, "repeat", n], spell(f, "-r", n)))
+    if rng.random() < 0.2:
+        fl = rng.choice(["lg", "ln", "ll"])
+        opts.append((["A", "flag", fl], ["-" + fl]))
+    if rng.random() < 0.3:
+        opts.append((["A", "flag", "b"], ["-b"]))
+    if rng.random() < 0.3:
+        k = rng.choice(list(KINDS))
+        v = ident(rng, GROUPS)
+        f = rng.choice("AS")
+        opts.append(([f, "group", k, hx(v)], spell(f, "-" + KINDS[k] + "g", v)))
+    rng.shuffle(opts)
+    for d, a in opts:
+        ops.append(opt_line(d, a))
+    if rng.random() < 0.25:          # a plugin argument of the memory reporter among them (raw: the case is then judged
+        ops.insert(rng.randint(0, len(ops)), "arg " + hx(rng.choice(MEMREP)))      # by the general oracle + correspondence)
+    return ops
+
+
+def gen_resetting_sweep():
+    """state surviving inside one vector: every value option given twice, the second time in each of its degenerate
+    forms (as last argument, followed by an empty argument, followed by another option, attached empty-ish values)"""
+    first = {"-k": ["-kpkg", "-k pkg"], "-o": ["-ojunit", "-o teamcity"], "-r": ["-r3", "-r 3"], "-s": ["-s5", "-s 7"],
+             "-g": ["-gAlpha"], "-sn": ["-sn one"], "-t": ["-tAlpha.one"], "-xst": ["-xst Beta.two"], "TEST(": ["TEST(Alpha, one)"]}
+    out = []
+    for lit, firsts in first.items():
+        for f in firsts:
+            for second in ([lit], [lit, ""], [lit, "-v"], [lit, "0"], [lit + " "], [lit, lit]):
+                out.append(["arg " + hx(a) for a in f.split(" ") if lit != "TEST("] if False else
+                           (["arg " + hx(f)] if lit == "TEST(" else ["arg " + hx(a) for a in f.split(" ")]) +
+                           ["arg " + hx(a) for a in second])
+    return out
+
+
+def gen_memrep_sweep():
+    out = []
+    for a in MEMREP:
+        out.append(["arg " + hx(a)])
+        out.append(["arg " + hx("-v"), "arg " + hx(a), "arg " + hx("-ojunit")])
+    return out
+
+
 def generate(rng, tier):
     n = 1500 if tier == "quick" else 20000
     out = []
@@ -261,12 +357,20 @@ def generate(rng, tier):
         out.append(("sweep", ops))
     for ops in gen_clock_sweep(rng):
         out.append(("clock", ops))
+    for _ in range(500 if tier == "quick" else 3000):
+        out.append(("combo", gen_combo(rng)))
+    for ops in gen_memrep_sweep():
+        out.append(("memrep", ops))
+    for ops in gen_resetting_sweep():
+        out.append(("resetting", ops))
     return out
 
 
 def translate(ctx):
-    from translate import extract_cmdline
-    return extract_cmdline.run()
+    from translate import extract_cmdline, extract_cmdline_fns
+    problems = extract_cmdline.run() or []
+    problems += extract_cmdline_fns.run() or []
+    return problems
 
 
 def ignore_line(l):
@@ -316,6 +420,16 @@ def observe(r, rep):
             rep.count("branch.repeat_set")
         elif l.startswith("output ") and "eclipse=1" not in l:
             rep.count("branch.output_junit_or_teamcity")
+        elif l.startswith("seedline ") and l != "seedline -":
+            rep.count("branch.seed_announced")
+        elif l.startswith("runheaders ") and l != "runheaders -":
+            rep.count("branch.test_run_headers_" + str(l.count("/")))
+        elif l.startswith("files ") and l != "files -":
+            rep.count("branch.junit_files_written")
+        elif l == "teamcity 1":
+            rep.count("branch.teamcity_messages")
+        elif l.startswith("memformatter "):
+            rep.count("branch.memformatter_" + l.split()[-1])
     for l in r.ops:
         w = l.split()
         if w and w[0] == "opt" and len(w) > 2:
@@ -324,33 +438,47 @@ def observe(r, rep):
             rep.count("bad." + w[1])
 
 
-LEVEL_TEXT = ("Machine-checked Lean 4 theorems (58, axioms propext/Classical.choice/Quot.sound at most) over an executable model "
-              "of CommandLineArguments::parse and of the runner that applies the configuration. Proved for ALL inputs of the "
-              "stated kind, no bound: parse_render (every list of documented options, any order and multiplicity, attached or "
-              "separated form, arbitrary identifier-like values, counts 1..2^31-1, seeds 1..2^32-1: accepted, configuration = the "
-              "documented meaning), by the per-option step lemma parse_step and induction; -h / unknown arguments / seed 0 (both "
-              "forms) / -t values without exactly one separating dot (exact characterisation t_accept_iff) / unknown -o kinds are "
-              "rejected with the state the help-vs-usage decision needs; TEST(g, n) and IGNORE_TEST(g, n) give strict filters, "
-              "the unterminated TEST(abc form is accepted harmlessly; totality for every byte-string argument vector (Lean's "
-              "termination checker, total list operations only) and stored_strings_from_args (every stored filter text / package "
-              "name is a contiguous part of an argument); a rejected vector prints help/usage and runs nothing, an accepted one "
-              "runs exactly the selected tests repeat times (reversed with -b, ignored ones only with -ri). Also proved: the plugin "
-              "chain for -p<x> (asked head first until the first accepts; default plugins refuse; only MemoryReporterPlugin "
-              "overrides, regenerated), the RunAllTests(ac, av) glue (leak and pointer plugins installed and removed around every "
-              "outcome, -h returns 1 without running, return value), every value option as last argument or followed by an empty "
-              "argument, and that help() and usage() each mention exactly the options of the Opt datatype (plus -h) and every "
-              "mentioned option is dispatched, every dispatched branch mentioned. The if/else-if chain of "
-              "parse() and the eight add...Filter functions are regenerated from the source on every run and proved equal to the "
-              "model's tables (decide); the other helpers are pinned by normalised text. The model is tied to the code by a "
-              "differential harness running the real parser and CommandLineTestRunner under ASan/UBSan on rendered, documented-"
-              "rejection and malformed vectors; an oracle written only against render/meaning judges the implementation's own "
-              "observations. Memory safety of the compiled parser is observed (ASan), not proved.")
-LEVEL_NOTE = ("Trusted: Lean kernel; the hand-written model (validated against the code by this run's correspondence); the "
-              "extractor of the dispatch chain and the pinned helper texts; that SimpleString implements the textbook string "
-              "functions of Spec/Text.lean and AtoI/AtoU as stated in Spec/CommandLine.lean (property C13; exercised here by the "
-              "correspondence, including the 32-bit wrap-around); the statement of render/meaning (from help()/usage()). Partial: "
-              "'touches no memory outside its inputs' holds for the model by construction and by stored_strings_from_args, for the "
-              "compiled code only by ASan/UBSan runs (signed-overflow check off: AtoI on >10 digits is outside the property).")
-TECHNIQUE = ("Lean 4 proofs (induction over option lists, per-option step lemma, invariants of the parse loop, decide over the "
-             "regenerated dispatch table) over an executable model + differential correspondence harness under ASan/UBSan + "
-             "regenerated dispatch table and pinned helper sources")
+LEVEL_TEXT = ("Machine-checked Lean 4 theorems (88 + 8 composition theorems, axioms propext/Classical.choice/Quot.sound at most) over an "
+              "executable model of CommandLineArguments::parse and of the runner that applies the configuration, AND over a "
+              "statement-level translation of the source regenerated on every run. Proved for ALL inputs, no bound: "
+              "source_parse_eq_model (the constructor's configuration followed by the for loop over the indices with the translated loop "
+              "body computes the hand-written model's parse on every argument vector), source_loop_body_eq_step (the whole if/else-if "
+              "chain of parse() with its statements = the model's step), one equality per helper (getParameterField, setRepeatCount, "
+              "setShuffle, the eight add...Filter functions, addGroupDotNameFilter, addTestToRunBasedOnVerboseOutput, setOutputType, "
+              "setPackageName), the getter table, the output selection of CommandLineTestRunner::parseArguments, initializeTestRun "
+              "(verbosity, colour, separate process, run-ignored, crash-on-fail, rethrow) and runAllTests (calls to the registry, seed "
+              "line, run headers) — so the following hold for what the source says at check time: parse_render / source_parse_render "
+              "(every list of documented options, any order and multiplicity, attached or separated form, arbitrary identifier-like "
+              "values, counts 1..2^31-1, seeds 1..2^32-1: accepted, configuration = the documented meaning, outputs created = the "
+              "documented ones), by the per-option step lemma parse_step and induction; -h / unknown arguments / seed 0 (both forms) / "
+              "-t values without exactly one separating dot (exact characterisation t_accept_iff) / unknown -o kinds are rejected with "
+              "the state the help-vs-usage decision needs; TEST(g, n) and IGNORE_TEST(g, n) give strict filters, the unterminated "
+              "TEST(abc form is accepted harmlessly; totality for every byte-string argument vector and stored_strings_from_args (every "
+              "stored filter text / package name is a contiguous part of an argument); a rejected vector prints help/usage, writes no "
+              "report file and runs nothing, an accepted one runs exactly the selected tests repeat times (reversed with -b, ignored "
+              "ones only with -ri); a shuffle seed announced for documented options is never 0 (shuffle_seed_never_zero_documented, "
+              "seed_line_documented_nonzero); with -ojunit every group with a selected test gets a report file whose name carries the "
+              "-k package and no file is written otherwise (junit_files_carry_package, junit_selected_group_has_file); TeamCity "
+              "messages iff -oteamcity; -pmemoryreport=<type>: the option text is stripped, normal/code choose the formatter, anything "
+              "else none. Also proved: the plugin chain for -p<x> (asked head first until the first accepts; default plugins refuse; only "
+              "MemoryReporterPlugin overrides, regenerated), the RunAllTests(ac, av) glue (leak and pointer plugins installed and removed "
+              "around every outcome, -h returns 1 without running, return value), every value option as last argument or followed by an "
+              "empty argument, and that help() and usage() each mention exactly the options of the Opt datatype (plus -h) and every "
+              "mentioned option is dispatched, every dispatched branch mentioned. The model is additionally tied to the code by a "
+              "differential harness running the real parser, CommandLineTestRunner and the static RunAllTests (real JUnit / TeamCity / "
+              "console outputs, files stubbed) under ASan/UBSan on rendered, documented-rejection, combination and malformed vectors; an "
+              "oracle written only against render/meaning judges the implementation's own observations. Memory safety of the compiled "
+              "parser is observed (ASan), not proved.")
+LEVEL_NOTE = ("Trusted: Lean kernel; the statement translator's reading of C++ idioms (argument indexing as list offset, TestFilter "
+              "helpers, the repeat-loop idiom) — its output is proved equal to the independently hand-written model and both are run "
+              "against the code; the hand-written model for the parts not regenerated (plugin chain, RunAllTests glue, test "
+              "selection, file names); that SimpleString implements the textbook string functions of Spec/Text.lean and AtoI/AtoU as "
+              "stated in Spec/CommandLine.lean (property C13; exercised here by the correspondence, including the 32-bit wrap-around); "
+              "the statement of render/meaning (from help()/usage()). Only observed: list-mode output text, the contents of report "
+              "files, MemoryReporterPlugin's pre/post actions. Partial: 'touches no memory outside its inputs' holds for the model by "
+              "construction and by stored_strings_from_args, for the compiled code only by ASan/UBSan runs (signed-overflow check "
+              "off: AtoI on >10 digits is outside the property).")
+TECHNIQUE = ("Lean 4 proofs (induction over option lists, per-option step lemma, invariants of the parse loop, refinement of the "
+             "index loop of the regenerated source to the list recursion of the model, equality of every regenerated function with "
+             "its hand model) over an executable model + statement-level C++-to-Lean translator run on every check + differential "
+             "correspondence harness under ASan/UBSan with real outputs")
